@@ -189,7 +189,9 @@ Section Interleavings.
       + eapply Forall_impl; [|exact HC]. intros p Hp. cbn in *. lia.
       + eapply Forall_impl; [|exact HD]. intros p. apply orphan_put_Dead.
     - destruct HG as (HP & HO & HC & HD). apply GInv_intro; cbn; auto.
-    - pose proof (op_GInv g i h o HG) as (HP & HO & HC & HD). apply GInv_intro; cbn; auto.
+    - pose proof (op_GInv g i h o HG) as HG'.
+      destruct (step i h (ms g) o) as [s' r] eqn:Es. cbn [fst] in HG'.
+      destruct HG' as (HP & HO & HC & HD). apply GInv_intro; cbn [ms g_obs g_cand g_cond set_ms set_junk]; auto.
   Qed.
 
   Lemma trace_GInv tr : forall g, GInv g -> GInv (run_trace g tr).
@@ -224,7 +226,9 @@ Section Interleavings.
           now inversion Ec. }
         apply Dead_dedup_shrink; auto. intros e He. apply filter_In in He. tauto.
       - destruct (nth_error (g_cond g) k) as [q|] eqn:En; auto.
-      - now apply orphan_put_Dead. }
+      - now apply orphan_put_Dead.
+      - pose proof (step_dead i h (ms g) o pid HP HD) as Hd.
+        destruct (step i h (ms g) o) as [s' r]. exact Hd. }
     intros g pid HG Hin. apply H; auto. destruct HG as (_ & _ & _ & HD). rewrite Forall_forall in HD. auto.
   Qed.
 End Interleavings.
